@@ -327,14 +327,27 @@ impl CelValue {
         if let CelValue::Int(l) = lhs {
             match rhs {
                 CelValue::Int(_) => (lhs, rhs),
-                CelValue::UInt(u) => (lhs, (u as i64).into()),
+                // widen only when the value is representable; otherwise leave the pair as it is
+                CelValue::UInt(u) => {
+                    if u <= i64::MAX as u64 {
+                        (lhs, (u as i64).into())
+                    } else {
+                        (lhs, rhs)
+                    }
+                }
                 CelValue::Float(_) => ((l as f64).into(), rhs),
                 CelValue::Bool(b) => (lhs, (b as i64).into()),
                 _ => (lhs, rhs),
             }
         } else if let CelValue::UInt(l) = lhs {
             match rhs {
-                CelValue::Int(_) => ((l as i64).into(), rhs),
+                CelValue::Int(_) => {
+                    if l <= i64::MAX as u64 {
+                        ((l as i64).into(), rhs)
+                    } else {
+                        (lhs, rhs)
+                    }
+                }
                 CelValue::UInt(_) => (lhs, rhs),
                 CelValue::Float(_) => ((l as f64).into(), rhs),
                 CelValue::Bool(b) => (lhs, (b as u64).into()),
@@ -380,6 +393,17 @@ impl CelValue {
         match (lhs, rhs) {
             (CelValue::Int(l), CelValue::Int(r)) => Ok(l.partial_cmp(&r)),
             (CelValue::UInt(l), CelValue::UInt(r)) => Ok(l.partial_cmp(&r)),
+            // an int/uint pair that type_prop could not widen is compared by numeric value
+            (CelValue::Int(l), CelValue::UInt(r)) => Ok(if l < 0 {
+                Some(Ordering::Less)
+            } else {
+                (l as u64).partial_cmp(&r)
+            }),
+            (CelValue::UInt(l), CelValue::Int(r)) => Ok(if r < 0 {
+                Some(Ordering::Greater)
+            } else {
+                l.partial_cmp(&(r as u64))
+            }),
             (CelValue::Float(l), CelValue::Float(r)) => Ok(l.partial_cmp(&r)),
             (CelValue::Bool(l), CelValue::Bool(r)) => Ok(l.partial_cmp(&r)),
             (CelValue::String(l), CelValue::String(r)) => Ok(l.partial_cmp(&r)),
